@@ -16,7 +16,16 @@ ASSUMPTIONS = ["C19: pest's Error is modelled by its contract (absolute byte off
 MAXLEN = 12
 
 
-def pest_error(eng, variant_custom, location):
+def line_col_of(eng, text, off):
+    """pest's Position::line_col contract for a byte offset into `text`: 1-based line and column"""
+    starts = [0] + [i + 1 for i, c in enumerate(text) if c == 10]
+    for k in reversed(range(len(starts))):
+        if eng.decide(z3.UGE(off, starts[k]) if is_sym(off) else off >= starts[k]):
+            return tup(k + 1, eng.binop("Add", eng.binop("Sub", off, starts[k], "usize"), 1, "usize"))
+    return tup(1, 1)
+
+
+def pest_error(eng, variant_custom, location, line_col=None):
     t = mirparse.foreign_types("pest", "src/error.rs")
     fields = t["Error"][1]
     ev = [v for v, _ in t["ErrorVariant"][1]]
@@ -29,6 +38,8 @@ def pest_error(eng, variant_custom, location):
         vals[f] = Opaque("pest." + f)
     vals["variant"] = variant
     vals["location"] = location
+    if line_col is not None:
+        vals["line_col"] = line_col
     return Agg("pest::Error", None, 0, [vals[f] for f in fields])
 
 
@@ -48,7 +59,12 @@ def h_from_pest(ctx, tier, seed):
     else:
         eng.assume(z3.And(s_ == e_, z3.ULE(s_, L)))
         loc = Agg("InputLocation", "Pos", il.index("Pos"), [s_])
-    err = pest_error(eng, custom, loc)
+    lc = [v for v, _ in t["LineColLocation"][1]]
+    if is_span:
+        line_col = Agg("LineColLocation", "Span", lc.index("Span"), [line_col_of(eng, text, s_), line_col_of(eng, text, e_)])
+    else:
+        line_col = Agg("LineColLocation", "Pos", lc.index("Pos"), [line_col_of(eng, text, s_)])
+    err = pest_error(eng, custom, loc, line_col)
 
     def line_model(eng_, a, callee):
         # pest contract: the text of the line that holds the start offset
